@@ -2,6 +2,7 @@
 package c18
 
 import (
+	"sort"
 	"time"
 	"bytes"
 	"encoding/binary"
@@ -30,6 +31,7 @@ type scenario struct {
 	Kind    string `json:"kind"` // bridge | dpipe
 	Ops     []op   `json:"ops"`
 	BufLens [2]int `json:"bufLens"` // bridge: read slice length per endpoint
+	Readers2 bool  `json:"readers2,omitempty"` // bridge: two goroutines read on each endpoint (what each message holds and how often it arrives is checked, not the order in which the two record them)
 	Lazy    bool   `json:"lazy"`    // bridge: no reader waits in the background; "tick" finds no reader, "read" reads on demand
 }
 
@@ -62,6 +64,7 @@ func gen(r *harn.Rng, tier string) interface{} {
 		return sc
 	}
 	sc.Kind = "bridge"
+	sc.Readers2 = r.Bool(0.15)
 	sc.BufLens = [2]int{r.Pick(2000, 2000, 8, 4, 100, 0), r.Pick(2000, 2000, 8, 4, 100, 0)}
 	// pending drop / reorder counters per direction, to avoid requesting both at once
 	pendDrop, pendReo := [2]int{}, [2]int{}
@@ -70,6 +73,17 @@ func gen(r *harn.Rng, tier string) interface{} {
 	for i := 0; i < n; i++ {
 		d := r.Intn(2)
 		x := r.Intn(100)
+		if sc.Readers2 && r.Bool(0.15) {
+			sc.Ops = append(sc.Ops, op{K: "ttw", Dir: d, N: r.Pick(4, 16, 100, 1200)})
+			switch {
+			case lossOn:
+			case pendDrop[d] > 0:
+				pendDrop[d]--
+			case pendReo[d] > 0:
+				pendReo[d]--
+			}
+			continue
+		}
 		if lossy && r.Bool(0.12) {
 			// total loss switched on for a stretch of writes, then off again: the writes in between
 			// vanish and leave every pending scripted impairment as it was
@@ -221,9 +235,25 @@ func runBridge(env *simrt.Env, sc *scenario) {
 	nextID := uint32(1)
 	lossAll := false
 
+	var readers2 []*simrt.Handle
 	startReaders := func() {
 	for e := 0; e < 2; e++ {
 		e := e
+		if sc.Readers2 {
+			readers2 = append(readers2, env.Go(fmt.Sprintf("reader%db", e), func() {
+				buf := make([]byte, sc.BufLens[e])
+				for {
+					n, err := conns[e].Read(buf)
+					if err != nil {
+						return
+					}
+					got[e] = append(got[e], append([]byte(nil), buf[:n]...))
+					if len(got[e]) > 5000 {
+						return
+					}
+				}
+			}))
+		}
 		readers[e] = env.Go(fmt.Sprintf("reader%d", e), func() {
 			buf := make([]byte, sc.BufLens[e])
 			for {
@@ -459,6 +489,36 @@ func runBridge(env *simrt.Env, sc *scenario) {
 			}
 			env.Quiesce()
 			env.Probe("single-tick")
+		case "ttw":
+			// two ticks and a write in one go, with two readers waiting on each endpoint: both
+			// readers of an endpoint are handed a message before either has copied it, and the
+			// bridge is already busy with the next write
+			if sc.Lazy || !sc.Readers2 || lossAll {
+				continue
+			}
+			env.Quiesce()
+			for t := 0; t < 2; t++ {
+				want := 0
+				for dd := 0; dd < 2; dd++ {
+					if len(models[dd].queue) > 0 {
+						want++
+						expect[1-dd] = append(expect[1-dd], models[dd].queue[0])
+						models[dd].queue = models[dd].queue[1:]
+					}
+				}
+				if n := br.Tick(); n != want {
+					env.Fail("C18/bridge-tick-count", "op %d: Tick #%d of two handed over %d message(s) with two readers waiting on each endpoint; %d of the two queues hold messages", i, t+1, n, want)
+					return
+				}
+			}
+			b := msg(nextID, o.N)
+			nextID++
+			if n, err := conns[d].Write(append([]byte(nil), b...)); err != nil || n != len(b) {
+				env.Fail("C18/bridge-write-failed", "op %d: Write on endpoint %d = (%d, %v)", i, d, n, err)
+				return
+			}
+			models[d].write(b)
+			env.Probe("tick-tick-write")
 		case "process":
 			if sc.Lazy && readers[0] == nil {
 				continue // keep the queues untouched until the end of the script
@@ -473,6 +533,14 @@ func runBridge(env *simrt.Env, sc *scenario) {
 	}
 	for e := 0; e < 2; e++ {
 		want := expect[e]
+		if sc.Readers2 {
+			// two readers record what they read in an order of their own: compare as multisets
+			// (every message carries its number)
+			want = append([][]byte(nil), want...)
+			sort.SliceStable(want, func(i, j int) bool { return bytes.Compare(want[i], want[j]) < 0 })
+			sort.SliceStable(got[e], func(i, j int) bool { return bytes.Compare(got[e][i], got[e][j]) < 0 })
+			env.Probe("two-readers-per-endpoint")
+		}
 		for k := 0; k < len(want) || k < len(got[e]); k++ {
 			switch {
 			case k >= len(want):
@@ -500,6 +568,7 @@ func runBridge(env *simrt.Env, sc *scenario) {
 		br.Tick()
 	}
 	env.Join(readers[0], readers[1])
+	env.Join(readers2...)
 	for e := 0; e < 2; e++ {
 		if !errors.Is(readErr[e], io.EOF) {
 			env.Fail("C18/bridge-close", "endpoint %d reader ended with %v, want EOF", e, readErr[e])
